@@ -312,7 +312,8 @@ def body(led):
 
 def _standin(led):
     from . import sparse_standin
-    sparse_standin.check(led, ['remove_null_cols'])
+    from . import sparse_proof
+    sparse_proof.remove_null_cols_or_standin(led)
 
 
 def main():
